@@ -2,7 +2,7 @@
 # usage: seed_confirm.sh <ID> <i> <worktree> <check-id> [extra test pkgs...]
 # Confirms a seeded change in its scratch worktree: existing tests of the touched package(s) pass with the change,
 # the demo fails with it and passes without; runs ./check <check-id> quick with the change through the overlay;
-# on success stores it under /verif/seeded/<ID>-<i>/.
+# on success stores it under /verif/seeded/<ID>-<OUT_I or i>/ (OUT_I: index to store under, for later seeding rounds).
 set -u
 id=$1; i=$2; wt=$3; chk=$4; shift 4
 export GOFLAGS=-mod=mod GOPROXY=off
@@ -28,7 +28,7 @@ echo "check $chk rc=$rc $sig"
 case "$withc" in FAIL*|*FAIL*) wf=1;; *) wf=0;; esac
 case "$without" in ok*) wo=1;; *) wo=0;; esac
 if [ $wf = 1 ] && [ $wo = 1 ] && [ -z "$existing" ]; then
-  d=/verif/seeded/$id-$i; mkdir -p $d; cp $patch $d/patch.diff; cp $demo $d/demo_test.go
+  d=/verif/seeded/$id-${OUT_I:-$i}; mkdir -p $d; cp $patch $d/patch.diff; cp $demo $d/demo_test.go
   python3 - "$d" "$id" "$chk" "$rc" "$sig" "$dir" "$run" <<'PY'
 import json,sys,re
 d,id_,chk,rc,sig,dir_,run=sys.argv[1:8]
